@@ -1,6 +1,6 @@
 CONSTANTS
-  N = 4
-  Flags = {0, 1}
+  N = 5
+  Flags = {0, 1, 2}
   MaxCb = 2
   StopAfterClose = TRUE
   ShutRdEof = FALSE
